@@ -4,6 +4,7 @@ import JanetModel.Parse.Model
 import JanetModel.Parse.Lemmas
 import JanetModel.PP.Jdn
 import JanetModel.Parse.Escape
+import JanetModel.Parse.Pos
 
 namespace JanetModel.Props.C11
 open JanetModel.Parse JanetModel.PP JanetModel.Gen.Parse
@@ -136,19 +137,33 @@ theorem takeError_frames_in_bounds (p : Parser) (h : p.error.isSome = true) : fr
 
 /-! ## positions -/
 
-/-- line / column / lookback as a fold of the CR/LF rule over the bytes alone -/
-def posStep (s : Nat × Nat × Int) (c : B) : Nat × Nat × Int :=
-  if c == 13 then (s.1 + 1, 0, Int.ofNat c.toNat)
-  else if c == 10 then ((if s.2.2 != 13 then s.1 + 1 else s.1), 0, Int.ofNat c.toNat)
-  else (s.1, s.2.1 + 1, Int.ofNat c.toNat)
+theorem feed_pos (scan : List B → Option String) (bs : List B) : ∀ r : Run, Live r →
+    Live (feed scan r bs) ∧ posOf (feed scan r bs).p = bs.foldl posStep (posOf r.p) := by
+  induction bs with
+  | nil => intro r h; exact ⟨h, rfl⟩
+  | cons c cs ih =>
+    intro r h
+    have h1 := feedByte_pos scan r c h (consumeRaw_never_out_of_fuel scan r.p c)
+    have h2 := ih (feedByte scan r c) h1.1
+    simp only [feed, List.foldl_cons] at h2 ⊢
+    rw [← h1.2]
+    exact h2
 
-/-- `advancePos` is `posStep`: it reads only line, column, lookback and the byte -/
-theorem advancePos_is_posStep (p : Parser) (c : B) :
-    ((advancePos p c).line, (advancePos p c).column) = ((posStep (p.line, p.column, p.lookback) c).1, (posStep (p.line, p.column, p.lookback) c).2.1) := by
-  unfold advancePos posStep
-  split
-  · rfl
-  · split <;> rfl
+/-- ★ Line, column and lookback after feeding ANY byte string to a fresh parser (client follows the error protocol) are
+    the left fold of the CR/LF rule `posStep` over the bytes -- independent of what the bytes parse to, of errors met
+    on the way, of the number scanner, and (with `chunk_independent`) of the chunking.  Rests on `quiet_step`: no
+    consumer writes line / column / lookback. -/
+theorem position_function_of_bytes (scan : List B → Option String) (bs : List B) :
+    posOf (feed scan Run.init bs).p = bs.foldl posStep (1, 0, -1) ∧ (feed scan Run.init bs).p.error = none ∧ (feed scan Run.init bs).p.flag = 0 := by
+  have h := feed_pos scan bs Run.init ⟨rfl, rfl⟩
+  exact ⟨h.2, h.1.1, h.1.2⟩
+
+/-- positions do not depend on the number scanner either -/
+theorem position_independent_of_scan (scan1 scan2 : List B → Option String) (bs : List B) :
+    posOf (feed scan1 Run.init bs).p = posOf (feed scan2 Run.init bs).p := by
+  rw [(position_function_of_bytes scan1 bs).1, (position_function_of_bytes scan2 bs).1]
+
+example : [13, 10, 40, 10].foldl posStep (1, 0, -1) = (3, 0, 10) := by decide
 
 /-! ## print / parse round trip of string escapes -/
 
